@@ -802,7 +802,7 @@ class WcSplit(Generic[AnyStr]):
         self.pathname = bool(flags & PATHNAME)
         self.extend = bool(flags & EXTMATCH)
         self.unix = is_unix_style(flags)
-        self.bslash_abort = not self.unix
+        self.bslash_abort = not self.unix and self.pathname
 
     def _sequence(self, i: util.StringIter) -> None:
         """Handle character group."""
